@@ -70,6 +70,11 @@ func AggregateVote(signers []Member, v VoteCtx) []byte {
 
 // SignTx builds and signs a transaction with one signer.
 func SignTx(txCfg client.TxConfig, chainID string, key Key, accNum, seq uint64, timeoutHeight uint64, memo string, msgs ...sdk.Msg) ([]byte, error) {
+	return SignTxAs(txCfg, chainID, key, key, accNum, seq, timeoutHeight, memo, msgs...)
+}
+
+// SignTxAs builds a transaction that claims to be signed by key but is signed with signWith.
+func SignTxAs(txCfg client.TxConfig, chainID string, key, signWith Key, accNum, seq uint64, timeoutHeight uint64, memo string, msgs ...sdk.Msg) ([]byte, error) {
 	b := txCfg.NewTxBuilder()
 	if err := b.SetMsgs(msgs...); err != nil {
 		return nil, err
@@ -83,7 +88,7 @@ func SignTx(txCfg client.TxConfig, chainID string, key Key, accNum, seq uint64, 
 	}
 	sig, err := clienttx.SignWithPrivKey(context.Background(), mode, xauthsigning.SignerData{
 		Address: key.AddrStr(), ChainID: chainID, AccountNumber: accNum, Sequence: seq, PubKey: key.Pub(),
-	}, b, key.Priv, txCfg, seq)
+	}, b, signWith.Priv, txCfg, seq)
 	if err != nil {
 		return nil, err
 	}
